@@ -405,7 +405,8 @@ def snapshot(tree):
             p = os.path.join(d, f)
             try:
                 st = os.lstat(p)
-                snap[p] = (st.st_mode, st.st_size, open(p, 'rb').read() if os.path.isfile(p) and not os.path.islink(p) else None)
+                reg = os.path.isfile(p) and not os.path.islink(p)
+                snap[p] = (st.st_mode, st.st_size, open(p, 'rb').read() if reg else None, st.st_mtime_ns if reg else None)
             except OSError:
                 snap[p] = None
     return snap
@@ -600,6 +601,132 @@ async def e2e_get(ctx, tmp):
         ctx.broke('correspondence:get_name', f'{len(bad)} differ; first: {cases[bad[0]]}')
 
 
+async def e2e_get_links(ctx, tmp):
+    """Recursive SFTP get from a server whose listings contain symbolic links with server-chosen targets, also
+    followed by a directory or file of the SAME name, with and without preserve: nothing outside the destination
+    may be created, overwritten, chmod-ed or touched."""
+    import asyncssh
+    import gc
+    import io
+    D, R, L = asyncssh.FILEXFER_TYPE_DIRECTORY, asyncssh.FILEXFER_TYPE_REGULAR, asyncssh.FILEXFER_TYPE_SYMLINK
+    rng = ctx.rng
+    base = os.path.join(tmp, 'gl')
+    outside = os.path.join(base, 'outside')
+    os.makedirs(os.path.join(outside, 'dir'))
+    victim = os.path.join(outside, 'victim')
+    state = {'listing': {}, 'target': {}}
+
+    def attrs(t):
+        perm = {D: 0o40755, R: 0o100644, L: 0o120777}[t]
+        return asyncssh.SFTPAttrs(type=t, permissions=perm, size=4 if t == R else 0, atime=1000000000, mtime=1000000000)
+
+    class LinkSFTP(asyncssh.SFTPServer):
+        def _type(self, path):
+            if path in (b'/', b'.', b'/remotedir'):
+                return D
+            parent, name = posixpath.split(path)
+            for n, t in state['listing'].get(parent, []):
+                if n == name:
+                    return t
+            return R
+
+        def stat(self, path):
+            t = self._type(path)
+            return attrs(D if t == L else t)
+
+        def lstat(self, path):
+            return attrs(self._type(path))
+
+        def realpath(self, path):
+            return path if path.startswith(b'/') else b'/' + path
+
+        def readlink(self, path):
+            return state['target'].get(path, b'/nonexistent')
+
+        async def scandir(self, path):
+            for n, t in state['listing'].get(path.rstrip(b'/') or b'/', []):
+                yield asyncssh.SFTPName(n, attrs=attrs(t))
+
+        def open(self, path, pflags, attrs_):
+            return io.BytesIO(b'evil')
+
+    listener, conn = await sshutil.loopback(srv_kw={'sftp_factory': LinkSFTP})
+    nrun = 0
+    try:
+        sftp = await conn.start_sftp_client()
+        ob = outside.encode()
+        fixed = [
+            ([(b'x', L), (b'x', D)], {b'x': ob + b'/dir'}, False),          # link, then a directory of the same name
+            ([(b'x', L), (b'x', R)], {b'x': ob + b'/victim'}, False),       # link, then a file of the same name
+            ([(b'x', L)], {b'x': ob + b'/victim'}, True),                   # preserve must not follow the new link
+            ([(b'x', L)], {b'x': b'../../outside/victim'}, True),
+            ([(b'x', L), (b'y', D), (b'x', D)], {b'x': b'../../outside/dir'}, True),
+        ]
+        n = 150 if ctx.tier == 'thorough' else 25
+        for k in range(len(fixed) + n):
+            work = os.path.join(base, 'w%d' % k)
+            dst = os.path.join(work, 'dst')
+            os.makedirs(work)
+            with open(victim, 'w') as f_:
+                f_.write('victim')
+            os.chmod(victim, 0o600)
+            os.utime(victim, (1500000000, 1500000000))
+            if k < len(fixed):
+                top, targets, preserve = fixed[k]
+            else:
+                names = [b'x', b'y', b'x', b'z']
+                top = [(rng.choice(names), rng.choice([L, L, D, R])) for _ in range(rng.randint(1, 5))]
+                targets = {nm: rng.choice([ob + b'/dir', ob + b'/victim', b'../../outside/dir', b'../../outside/victim',
+                                            b'..', b'../..', b'/', b'.', b'y']) for nm in (b'x', b'y', b'z')}
+                preserve = rng.random() < 0.5
+            state['listing'] = {b'/remotedir': top}
+            for nm, t in top:
+                if t == D:
+                    state['listing'][b'/remotedir/' + nm] = [(b'evil', R), (b'sub', D)]
+                    state['listing'][b'/remotedir/' + nm + b'/sub'] = [(b'evil2', R)]
+            state['target'] = {b'/remotedir/' + nm: tg for nm, tg in targets.items()}
+            before = snapshot(base)
+            err = None
+            try:
+                await sftp.get(b'/remotedir', dst, recurse=True, preserve=preserve, sparse=False)
+            except (asyncssh.SFTPError, OSError, ValueError) as e:
+                err = type(e).__name__
+            nrun += 1
+            gc.collect()                       # finalise abandoned scandir generators while the connection is open
+            for _ in range(4):
+                await asyncio.sleep(0)
+            shape = tuple((nm, {D: 'D', R: 'R', L: 'L'}[t]) for nm, t in top)
+            ctx.note_case(('get_links', shape, tuple(sorted(targets.items())), preserve),
+                          nontrivial=any(t == L for _, t in top))
+            ctx.count('e2e_get_links.' + ('raised' if err else 'ok'))
+            after = snapshot(base)
+            changed = sorted(p for p in set(before) | set(after) if before.get(p) != after.get(p))
+            out = [p for p in changed if not (p == dst or p.startswith(dst + '/')) and p != work]
+            if out:
+                def what(p):
+                    b, a = before.get(p), after.get(p)
+                    if b is None:
+                        return 'created'
+                    if a is None:
+                        return 'removed'
+                    return ('content ' if b[2] != a[2] else '') + ('mode %o->%o ' % (b[0] & 0o7777, a[0] & 0o7777) if b[0] != a[0] else '') + \
+                        ('mtime' if b[3] != a[3] else '')
+                ctx.failing_input(
+                    f'recursive SFTP get (preserve={preserve}) to {dst!r} from a server listing {shape!r} with link '
+                    f'targets {dict((k_.decode(), v.decode()) for k_, v in targets.items())!r} changed outside the '
+                    f'destination: {[(p, what(p)) for p in out[:3]]!r}',
+                    {'kind': 'e2e_get_links', 'listing': [[nm.decode(), t] for nm, t in top],
+                     'targets': {k_.decode(): v.decode('latin-1') for k_, v in targets.items()}, 'preserve': preserve,
+                     'changed_outside': out[:3]})
+            shutil.rmtree(work, ignore_errors=True)
+    finally:
+        conn.close()
+        listener.close()
+        await listener.wait_closed()
+        shutil.rmtree(base, ignore_errors=True)
+    ctx.cov['oracle']['e2e_get_links_runs'] = nrun
+
+
 async def e2e_scp(ctx, tmp):
     """SCP download from a hostile source that sends arbitrary records."""
     import asyncssh
@@ -695,6 +822,11 @@ async def e2e_symlinks(ctx, tmp):
         [('symlink', b'../..', b'/a/b/up'), ('rename', b'/a/b/up', b'/up')],                   # C13-4
         [('symlink', b'../..', b'/a/b/up'), ('posix_rename', b'/a/b/up', b'/up')],             # C13-4
         [('symlink', b'../..', b'/a/b/c/l0'), ('posix_rename', b'/a/b/c', b'/m2')],            # C13-5 (known)
+        # a directory NEXT to the root whose name starts with the root's name (jail / jail-backup): a dangling link
+        # inside the root that would point there once moved up one level
+        [('symlink', b'../jail-backup/secret.txt', b'/a/l'), ('rename', b'/a/l', b'/l')],
+        [('symlink', b'../jail-backup/secret.txt', b'/a/l'), ('posix_rename', b'/a/l', b'/l')],
+        [('symlink', b'../../jail-backup', b'/a/b/l'), ('rename', b'/a/b/l', b'/l')],
     ]
     for k in range(nseq + len(corpus)):
         fixed = corpus[k] if k < len(corpus) else None
@@ -702,6 +834,9 @@ async def e2e_symlinks(ctx, tmp):
         jail = os.path.join(base, 'jail')
         os.makedirs(os.path.join(jail, 'a', 'b', 'c'))
         os.makedirs(os.path.join(base, 'outside'))
+        os.makedirs(os.path.join(base, 'jail-backup'))
+        with open(os.path.join(base, 'jail-backup', 'secret.txt'), 'w') as f_:
+            f_.write('outside the root')
         jb = jail.encode()
 
         def sftpf(chan, jb=jb):
@@ -745,7 +880,7 @@ async def e2e_symlinks(ctx, tmp):
                     elif r < 0.65 and links:
                         parts.append(posixpath.relpath(rng.choice(links), newdir))
                     else:
-                        parts.append(rng.choice([b'a', b'b', b'c', b'.', b'a/b/c']))
+                        parts.append(rng.choice([b'a', b'b', b'c', b'.', b'a/b/c', b'jail-backup', b'jail-backup/secret.txt']))
                 target = b'/'.join(parts)
                 if rng.random() < 0.25:
                     target = rng.choice([b'/', b'/', b'/a', b'/' + target])
@@ -790,6 +925,7 @@ def stage_e2e(ctx):
     try:
         sshutil.run(e2e_chroot(ctx, tmp))
         sshutil.run(e2e_get(ctx, tmp))
+        sshutil.run(e2e_get_links(ctx, tmp))
         sshutil.run(e2e_scp(ctx, tmp))
         sshutil.run(e2e_symlinks(ctx, tmp))
     finally:
